@@ -170,17 +170,27 @@ func genOpts() amf0x.Opts {
 	return amf0x.Opts{MaxDepth: 6, MaxNodes: 30, DistinctKeys: true, BigStrings: true, NoStrictElem: strictOpen()}
 }
 
+func genLCase(t *rapid.T) LCase {
+	c := LCase{Val: amf0x.Gen(t, genOpts())}
+	if rapid.IntRange(0, 2).Draw(t, "second") == 0 {
+		o := amf0x.Gen(t, genOpts())
+		c.Other = &o
+	}
+	if rapid.IntRange(0, 2).Draw(t, "edit") == 0 {
+		c.Edit = 1 + rapid.Uint64Range(0, 1<<20).Draw(t, "editsel")
+	}
+	return c
+}
+
+// TestSideBySide: independent values marshalled on several goroutines at once.
+func TestSideBySide(t *testing.T) {
+	ev.Parallel(t, prop, "side-by-side", 6, 400, 120, genLCase, checkLibCase)
+}
+
 func TestLibToSpecDecoder(t *testing.T) {
 	ev.Rapid(t, "lib-to-spec-decoder", 8000, 4000000, func(t *rapid.T) {
-		v := amf0x.Gen(t, genOpts())
-		c := LCase{Val: v}
-		if rapid.IntRange(0, 2).Draw(t, "second") == 0 {
-			o := amf0x.Gen(t, genOpts())
-			c.Other = &o
-		}
-		if rapid.IntRange(0, 2).Draw(t, "edit") == 0 {
-			c.Edit = 1 + rapid.Uint64Range(0, 1<<20).Draw(t, "editsel")
-		}
+		c := genLCase(t)
+		v := c.Val
 		err := ev.Try(func() error { return checkLibCase(c) })
 		cl, _ := classes(v)
 		if c.Other != nil {
@@ -364,6 +374,13 @@ func TestKnownStrictArray(t *testing.T) {
 
 func replayers() map[string]ev.Replayer {
 	return map[string]ev.Replayer{
+		"side-by-side": func(raw json.RawMessage) error {
+			var c LCase
+			if err := json.Unmarshal(raw, &c); err != nil {
+				return err
+			}
+			return checkLibCase(c)
+		},
 		"lib-to-spec-decoder": func(raw json.RawMessage) error {
 			var probe map[string]json.RawMessage
 			if err := json.Unmarshal(raw, &probe); err == nil && probe["val"] != nil {
